@@ -146,9 +146,11 @@ def c03(p, sc, view):
     return bad
 
 
-def c04(p, sc, view):
+def c04(p, sc, view, cal=None):
     bad = []
     own, alle = A.all_edges(p)
+    lene = A.len_edges(p)
+    cal = cal or Cal(p)
     T = sc["tasks"]
     for fid, o in T.items():
         if not o["leaf"] or not o["scheduled"] or o["start"] is None:
@@ -175,6 +177,19 @@ def c04(p, sc, view):
                 ref = qo["end"]
                 if ref is not None and o["start"] < ref + gap:
                     bad.append(f"ALAP task {fid} starts {o['start']} before end of {q} ({ref}) + gap {gap}")
+        if fwd:
+            # working-time gaps: not before the instant at which that much project working time has passed
+            for (q, secs, onstart) in lene[fid]:
+                qo = T.get(q)
+                if qo is None or not qo["scheduled"]:
+                    continue
+                ref = qo["start"] if onstart else qo["end"]
+                if ref is None:
+                    continue
+                lb = cal.len_bound(ref, secs, sc.get("_end", A.end_of(p)))
+                if lb is not None and o["start"] < lb:
+                    bad.append(f"task {fid} starts {o['start']} before {secs} s of project working time have passed since the "
+                               f"{'start' if onstart else 'end'} of {q} ({ref}): not before {lb}")
     return bad
 
 
@@ -235,11 +250,13 @@ def c05(p, sc):
     return bad
 
 
-def c06(p, sc, view):
+def c06(p, sc, view, cal=None):
     bad = []
     G = p.get("G", 3600)
     by = ledger_by_task(sc)
     own, alle = A.all_edges(p)
+    lene = A.len_edges(p)
+    cal = cal or Cal(p)
     T = sc["tasks"]
     for fid, o in T.items():
         if not o["leaf"] or not o["scheduled"]:
@@ -290,6 +307,14 @@ def c06(p, sc, view):
                     ref = qo["start"] if onstart else qo["end"]
                     if ref is not None:
                         bound = max(bound, ref + gap)
+                for (q, secs, onstart) in lene[fid]:
+                    qo = T.get(q)
+                    ref = (qo["start"] if onstart else qo["end"]) if qo and qo["scheduled"] else None
+                    lb = cal.len_bound(ref, secs, sc.get("_end", A.end_of(p))) if ref is not None else None
+                    if lb is None:
+                        ok = False
+                        break
+                    bound = max(bound, lb)
                 if ok and alle[fid] and o["start"] != bound:
                     bad.append(f"milestone {fid} at {o['start']}, its dependency bound is {bound}")
     return bad
@@ -331,6 +356,7 @@ def c08(p, sc, view, cal=None):
     G = p.get("G", 3600)
     by = ledger_by_task(sc)
     own, alle = A.all_edges(p)
+    lene = A.len_edges(p)
     l2f = local_to_full(p)
     T = sc["tasks"]
     res_nodes = {fid: (r, par) for fid, r, par in A.flat_resources(p)}
@@ -367,6 +393,11 @@ def c08(p, sc, view, cal=None):
                     ref = T[q]["start"] if onstart else T[q]["end"]
                     if ref is not None:
                         bound = max(bound, ref + gap)
+                for (q, secs, onstart) in lene[fid]:
+                    ref = T[q]["start"] if onstart else T[q]["end"]
+                    lb = cal.len_bound(ref, secs, sc.get("_end", A.end_of(p))) if ref is not None else None
+                    if lb is not None:
+                        bound = max(bound, lb)
             lo, hi = bound, o["end"]
         else:
             if any(onstart for (_, _, onstart) in alle[fid]):
